@@ -1,72 +1,478 @@
+// simdrive is the driver of the deterministic simulation: it builds the world
+// binaries from /repo's working tree, draws worlds from one seed, runs them on
+// all cores, evaluates the oracles, minimises and writes replay files and the
+// evidence file.
 package main
 
 import (
 	"encoding/json"
 	"fmt"
 	"os"
+	"path/filepath"
+	"runtime"
+	"sort"
+	"strconv"
+	"strings"
+	"sync"
+	"time"
 
 	"verif/internal/build"
+	"verif/internal/check"
+	"verif/internal/gen"
 	"verif/internal/world"
 	"verif/sim/scen"
 )
 
+const verifDir = "/verif"
+
+// repoDir is /repo; VERIF_REPO overrides it for experiments on scratch
+// worktrees (never used by the commands registered in MANIFEST.json).
+var repoDir = func() string {
+	if v := os.Getenv("VERIF_REPO"); v != "" {
+		return v
+	}
+	return "/repo"
+}()
+
 func main() {
-	if len(os.Args) > 1 && os.Args[1] == "smoke" {
+	scen.NominalDir = repoDir + "/snaps"
+	if len(os.Args) < 2 {
+		usage()
+	}
+	switch os.Args[1] {
+	case "check":
+		if len(os.Args) < 4 {
+			usage()
+		}
+		os.Exit(cmdCheck(os.Args[2], os.Args[3]))
+	case "replay":
+		if len(os.Args) < 3 {
+			usage()
+		}
+		os.Exit(cmdReplay(os.Args[2]))
+	case "selftest":
+		os.Exit(cmdSelftest())
+	case "smoke":
 		smoke()
-		return
+	case "witness":
+		witness()
+	default:
+		usage()
 	}
 }
 
-func smoke() {
-	scratch, _ := os.MkdirTemp("/dev/shm", "verif-smoke")
-	defer os.RemoveAll(scratch)
-	res, err := build.Build("/repo", "/verif", scratch, true)
+func usage() {
+	fmt.Fprintln(os.Stderr, "usage: simdrive check <property> quick|thorough | replay <file> | selftest")
+	os.Exit(2)
+}
+
+func envInt(name string, def int) int {
+	if v := os.Getenv(name); v != "" {
+		if n, err := strconv.Atoi(v); err == nil {
+			return n
+		}
+	}
+	return def
+}
+
+func scratchDir() (string, error) {
+	base := "/dev/shm"
+	if fi, err := os.Stat(base); err != nil || !fi.IsDir() {
+		base = os.TempDir()
+	}
+	return os.MkdirTemp(base, "verif-sim-")
+}
+
+func fatal2(f string, a ...any) int {
+	fmt.Printf("INFRA-ERROR: "+f+"\n", a...)
+	return 2
+}
+
+func needRace(prop string) bool {
+	switch prop {
+	case "C06", "C12", "C20", "C03":
+		return true
+	}
+	return false
+}
+
+type budget struct {
+	worlds int
+	wall   time.Duration
+}
+
+func budgetOf(prop, tier string) budget {
+	// the world count decides (so that a batch is reproducible); the wall limit is a safety net
+	q := budget{12000, 150 * time.Second}
+	t := budget{240000, 20 * time.Minute}
+	switch prop {
+	case "C03", "C19", "C10", "C20":
+		q.worlds, t.worlds = 8000, 160000
+	}
+	if tier == "thorough" {
+		return t
+	}
+	return q
+}
+
+type job struct {
+	idx int
+	w   *check.World
+}
+
+type result struct {
+	idx int
+	w   *check.World
+	out *check.Outcome
+}
+
+func cmdCheck(prop, tier string) int {
+	start := time.Now()
+	seed := uint64(envInt("VERIF_SEED", 1))
+	workers := envInt("VERIF_WORKERS", runtime.NumCPU())
+	if tier != "quick" && tier != "thorough" {
+		usage()
+	}
+	scratch, err := scratchDir()
 	if err != nil {
-		fmt.Println("BUILD:", err)
-		os.Exit(2)
+		return fatal2("scratch dir: %v", err)
 	}
-	bins := &world.Bins{Bin: res.Bin, RaceBin: res.RaceBin, Sources: res.Sources}
-	root, _ := world.NewRoot(scratch, bins)
-	mk := func(id int, api, s string) scen.Step {
-		return scen.Step{Kind: "call", Call: &scen.Call{ID: id, API: api, Cfg: -1, Values: []scen.Value{scen.Str(s)}}}
+	defer os.RemoveAll(scratch)
+	bres, err := build.Build(repoDir, verifDir, scratch, needRace(prop))
+	if err != nil {
+		return fatal2("build from %s failed:\n%v", repoDir, err)
 	}
-	l := &scen.Lifetime{Mode: "runner", Count: 1, Env: map[string]string{}, Clean: &scen.CleanSpec{},
-		Tests: []*scen.TestNode{{Name: "TestA", Site: 0, Steps: []scen.Step{mk(1, "snapshot", "hello"), mk(2, "snapshot", "x\n---\ny"),
-			{Kind: "sub", Sub: &scen.TestNode{Name: "sub one", Steps: []scen.Step{mk(3, "ssnap", "alone")}}}}}}}
-	for i := 0; i < 2; i++ {
-		r, err := world.Run(bins, root, scratch, l, i)
-		fmt.Println("err:", err, "exit:", r.ExitCode, "wall:", r.Wall)
-		b, _ := json.MarshalIndent(r.Report, "", " ")
-		fmt.Println(string(b))
-		fmt.Println("stdout:", r.Stdout, "stderr:", r.Stderr)
+	kf := loadKnown()
+	env := &check.Env{Bins: &world.Bins{Bin: bres.Bin, RaceBin: bres.RaceBin, Sources: bres.Sources}, Base: scratch, Known: kf.classifyAny}
+	fmt.Printf("simdrive: property %s tier %s seed %d: built world binaries from %s in %.1fs (%d import rewrites)\n", prop, tier, seed, repoDir, time.Since(start).Seconds(), bres.Rewrites)
+
+	bud := budgetOf(prop, tier)
+	if v := envInt("VERIF_WORLDS", 0); v > 0 {
+		bud.worlds = v
 	}
-	d, _ := world.ReadDisk(root, nil)
-	for k, v := range d {
-		fmt.Printf("%s: %q\n", k, trunc(v))
+	src := newSource(prop, seed, tier)
+	if src == nil {
+		return fatal2("no scenario family for property %s", prop)
 	}
-	// tasks mode
-	l2 := &scen.Lifetime{Mode: "tasks", Count: 1, Race: true, Env: map[string]string{"UPDATE_SNAPS": "true"},
-		Sched: &scen.SchedSpec{Strategy: "uniform", Seed: 7},
-		Tests: []*scen.TestNode{
-			{Name: "TestA", Site: 0, Steps: []scen.Step{mk(1, "snapshot", "hello2"), mk(2, "snapshot", "zz")}},
-			{Name: "TestB", Site: 0, Steps: []scen.Step{mk(3, "snapshot", "b1"), mk(4, "snapshot", "b2")}},
-			{Name: "TestC", Site: 0, Steps: []scen.Step{mk(5, "snapshot", "c1"), mk(6, "sjson", `{"a":1}`)}},
-		}}
-	r, err := world.Run(bins, root, scratch, l2, 3)
-	fmt.Println("err:", err, "exit:", r.ExitCode, "wall:", r.Wall)
-	r.Report.Ops = nil
-	b, _ := json.Marshal(r.Report)
-	fmt.Println(string(b))
-	fmt.Println("stdout:", r.Stdout, "stderr:", r.Stderr, "races:", len(r.Races), len(r.HarnessRaces))
-	d, _ = world.ReadDisk(root, nil)
-	for k, v := range d {
-		fmt.Printf("%s: %q\n", k, trunc(v))
+	jobs := make(chan job, workers*2)
+	results := make(chan result, workers*2)
+	var wg sync.WaitGroup
+	for i := 0; i < workers; i++ {
+		wg.Add(1)
+		go func() {
+			defer wg.Done()
+			for j := range jobs {
+				results <- result{j.idx, j.w, check.RunWorld(env, j.w)}
+			}
+		}()
 	}
+	deadline := start.Add(bud.wall)
+	stop := make(chan struct{})
+	go func() {
+		defer close(jobs)
+		for i := 0; i < bud.worlds; i++ {
+			w := src.world(i)
+			if w == nil {
+				return
+			}
+			if !src.exhaustive() && time.Now().After(deadline) {
+				return
+			}
+			select {
+			case jobs <- job{i, w}:
+			case <-stop:
+				return
+			}
+		}
+	}()
+	go func() { wg.Wait(); close(results) }()
+
+	agg := newAgg(prop, tier, seed)
+	var mine []result  // violations of this property
+	var cross []result // violations of other properties only
+	var infra []string
+	stopped := false
+	knownHit := map[string]int{}
+	for r := range results {
+		agg.add(r.w, r.out)
+		for _, kv := range r.out.Known {
+			if !kv.Has(prop) {
+				continue
+			}
+			if kf.lists(kv.Known, prop) {
+				knownHit[kv.Known]++
+			} else {
+				// the trigger of a listed finding holds, but the finding is not listed for
+				// this property: it is reported
+				mine = append(mine, result{r.idx, r.w, &check.Outcome{Viol: kv}})
+			}
+		}
+		if r.out.Infra != "" {
+			infra = append(infra, fmt.Sprintf("world %d: %s", r.idx, r.out.Infra))
+			if len(infra) >= 3 && !stopped {
+				stopped = true
+				close(stop)
+			}
+			continue
+		}
+		if v := r.out.Viol; v != nil {
+			if v.Has(prop) {
+				mine = append(mine, r)
+				if len(mine) >= 40 && !stopped {
+					stopped = true
+					close(stop)
+				}
+			} else {
+				cross = append(cross, r)
+			}
+		}
+	}
+	if len(infra) > 0 {
+		for _, s := range infra {
+			fmt.Println("INFRA-ERROR:", s)
+		}
+		return 2
+	}
+	sort.Slice(mine, func(i, j int) bool { return mine[i].idx < mine[j].idx })
+	crossSeen := map[string]bool{}
+	for _, r := range cross {
+		k := strings.Join(r.out.Viol.Props, ",") + " " + r.out.Viol.Oracle
+		if !crossSeen[k] {
+			crossSeen[k] = true
+			fmt.Printf("CROSS-FINDING property=%s oracle=%s world=%d: %s\n", strings.Join(r.out.Viol.Props, ","), r.out.Viol.Oracle, r.idx, oneLine(r.out.Viol.Msg))
+		}
+	}
+	exit := 0
+	reported := map[string]bool{}
+	os.MkdirAll(filepath.Join(verifDir, "out", "replays"), 0o755)
+	for _, r := range mine {
+		v := r.out.Viol
+		sig := v.Oracle
+		if reported[sig] {
+			continue
+		}
+		reported[sig] = true
+		// minimise, replay once more, report
+		mw, mv := minimise(env, r.w, v, prop)
+		path := filepath.Join(verifDir, "out", "replays", fmt.Sprintf("%s-seed%d-w%d-%s.json", prop, seed, r.idx, v.Oracle))
+		writeReplay(path, mw, mv)
+		fmt.Printf("VIOLATION property=%s replay=%s\n", prop, path)
+		fmt.Printf("  oracle=%s world=%d config=%s lifetimes=%d\n  %s\n", mv.Oracle, r.idx, r.w.Config, len(mw.Lifetimes), indent(mv.Msg))
+		agg.violations++
+		exit = 1
+	}
+	// committed witnesses of the listed findings: a fixed one must stay fixed, a known one is re-confirmed
+	for i := range kf.Findings {
+		f := &kf.Findings[i]
+		if f.Replay == "" || !kf.lists(f.ID, prop) {
+			continue
+		}
+		rf, err := loadReplay(filepath.Join(verifDir, f.Replay))
+		if err != nil {
+			return fatal2("finding %s: %v", f.ID, err)
+		}
+		o := check.RunWorld(env, rf.World)
+		if o.Infra != "" {
+			return fatal2("finding %s witness: %s", f.ID, o.Infra)
+		}
+		agg.witnesses++
+		switch f.Status {
+		case "fixed":
+			bad := o.Viol
+			if bad == nil {
+				for _, kv := range o.Known {
+					if kv.Oracle == rf.Violation.Oracle {
+						bad = nil // a different, listed finding on the same witness: not this one
+					}
+				}
+			}
+			if bad != nil && bad.Has(prop) {
+				fmt.Printf("VIOLATION property=%s replay=%s\n  the repaired finding %s is back: %s\n", prop, filepath.Join(verifDir, f.Replay), f.ID, indent(bad.Msg))
+				agg.violations++
+				exit = 1
+			}
+		case "known":
+			found := false
+			for _, kv := range o.Known {
+				if kv.Known == f.ID {
+					found = true
+				}
+			}
+			if found {
+				knownHit[f.ID]++
+				agg.reconfirmed = append(agg.reconfirmed, f.ID)
+			} else {
+				fmt.Printf("NOTE: the committed witness of known finding %s no longer reproduces on this tree\n", f.ID)
+			}
+		}
+	}
+	for _, id := range sortedKeysInt(knownHit) {
+		f := kf.byID[id]
+		fmt.Printf("KNOWN-FINDING: property=%s %s: %s (met in %d worlds)\n", prop, f.ID, f.What, knownHit[id])
+	}
+	agg.known = knownHit
+	agg.wall = time.Since(start)
+	if err := agg.write(filepath.Join(verifDir, "evidence", prop+".json"), src); err != nil {
+		return fatal2("evidence: %v", err)
+	}
+	fmt.Printf("simdrive: %s %s: %d worlds, %d lifetimes, %d calls, %d scheduler steps in %.1fs; %d violations of %s, %d known-finding hits, %d cross findings\n",
+		prop, tier, agg.worlds, agg.lifetimes, agg.calls, agg.steps, agg.wall.Seconds(), agg.violations, prop, sumInts(knownHit), len(cross))
+	for _, w := range agg.reachWarnings() {
+		fmt.Println("REACH-WARNING", w)
+	}
+	return exit
 }
 
-func trunc(b []byte) []byte {
-	if len(b) > 300 {
-		return b[:300]
+func oneLine(s string) string {
+	s = strings.ReplaceAll(s, "\n", " | ")
+	if len(s) > 400 {
+		s = s[:400] + "..."
 	}
-	return b
+	return s
+}
+
+func indent(s string) string { return strings.ReplaceAll(s, "\n", "\n  ") }
+
+func sortedKeysInt(m map[string]int) []string {
+	out := make([]string, 0, len(m))
+	for k := range m {
+		out = append(out, k)
+	}
+	sort.Strings(out)
+	return out
+}
+
+func sumInts(m map[string]int) int {
+	t := 0
+	for _, v := range m {
+		t += v
+	}
+	return t
+}
+
+// ---------------------------------------------------------------- sources
+
+type source interface {
+	world(i int) *check.World
+	exhaustive() bool
+	describe() string
+}
+
+type presetSource struct {
+	prop string
+	seed uint64
+	free *gen.Params
+	adv  *gen.Params
+}
+
+func (s *presetSource) world(i int) *check.World {
+	p := s.free
+	if i%5 >= 3 {
+		p = s.adv
+	}
+	w := gen.World(scen.Mix(s.seed, hashProp(s.prop)), i, p)
+	if s.prop == "C12" {
+		w.Differential = "fresh-config"
+	}
+	return w
+}
+func (s *presetSource) exhaustive() bool { return false }
+func (s *presetSource) describe() string {
+	return "worlds drawn by internal/gen from splitmix(VERIF_SEED, property, index): 3 of 5 with the trigger-free generator configuration, 2 of 5 adversarial (known-finding triggers allowed)"
+}
+
+func hashProp(p string) uint64 {
+	h := uint64(1469598103934665603)
+	for i := 0; i < len(p); i++ {
+		h = (h ^ uint64(p[i])) * 1099511628211
+	}
+	return h
+}
+
+func newSource(prop string, seed uint64, tier string) source {
+	switch prop {
+	case "C01", "C02", "C03", "C04", "C06", "C07", "C08", "C09", "C10", "C17", "C19", "C20", "C12":
+		return &presetSource{prop: prop, seed: seed, free: gen.Preset(prop, false, nil), adv: gen.Preset(prop, true, nil)}
+	}
+	return nil
+}
+
+// ---------------------------------------------------------------- replay files
+
+type replayFile struct {
+	Property  string           `json:"property"`
+	Violation *check.Violation `json:"violation"`
+	World     *check.World     `json:"world"`
+	Note      string           `json:"note"`
+}
+
+func writeReplay(path string, w *check.World, v *check.Violation) {
+	rf := replayFile{Property: w.Prop, Violation: v, World: w, Note: "replay with: ./bin/check replay <this file>; byte values are base64"}
+	b, _ := json.MarshalIndent(rf, "", " ")
+	os.WriteFile(path, b, 0o644)
+}
+
+func loadReplay(path string) (*replayFile, error) {
+	b, err := os.ReadFile(path)
+	if err != nil {
+		return nil, err
+	}
+	var rf replayFile
+	if err := json.Unmarshal(b, &rf); err != nil {
+		return nil, fmt.Errorf("bad replay file %s: %v", path, err)
+	}
+	if rf.Violation == nil {
+		rf.Violation = &check.Violation{}
+	}
+	return &rf, nil
+}
+
+func cmdReplay(path string) int {
+	rfp, err := loadReplay(path)
+	if err != nil {
+		return fatal2("%v", err)
+	}
+	rf := *rfp
+	scratch, err := scratchDir()
+	if err != nil {
+		return fatal2("%v", err)
+	}
+	defer os.RemoveAll(scratch)
+	race := false
+	for _, l := range rf.World.Lifetimes {
+		if l.Race {
+			race = true
+		}
+	}
+	bres, err := build.Build(repoDir, verifDir, scratch, race)
+	if err != nil {
+		return fatal2("build failed:\n%v", err)
+	}
+	kf := loadKnown()
+	env := &check.Env{Bins: &world.Bins{Bin: bres.Bin, RaceBin: bres.RaceBin, Sources: bres.Sources}, Base: scratch, Known: kf.classifyAny}
+	out := check.RunWorld(env, rf.World)
+	if out.Infra != "" {
+		return fatal2("%s", out.Infra)
+	}
+	for _, kv := range out.Known {
+		if kv.Has(rf.Property) && kf.lists(kv.Known, rf.Property) {
+			fmt.Printf("KNOWN-FINDING: property=%s %s: %s\n  %s\n", rf.Property, kv.Known, kf.byID[kv.Known].What, indent(kv.Msg))
+		} else if kv.Has(rf.Property) && out.Viol == nil {
+			out.Viol = kv
+		}
+	}
+	if out.Viol == nil {
+		fmt.Printf("replay %s: no unlisted violation on the current tree\n", path)
+		return 0
+	}
+	fmt.Printf("replay: oracle=%s props=%v\n  %s\n", out.Viol.Oracle, out.Viol.Props, indent(out.Viol.Msg))
+	if rf.Violation != nil && out.Viol.Oracle != rf.Violation.Oracle {
+		fmt.Printf("replay: NOTE a different oracle fired than recorded (%s)\n", rf.Violation.Oracle)
+	}
+	if out.Viol.Has(rf.Property) {
+		fmt.Printf("VIOLATION property=%s replay=%s\n", rf.Property, path)
+		return 1
+	}
+	fmt.Printf("CROSS-FINDING property=%s\n", strings.Join(out.Viol.Props, ","))
+	return 0
 }
